@@ -224,73 +224,208 @@ theorem applyMask_scalar (d : Bytes) (pos k : Nat) (h : (sread d pos k).length =
 
 /-! ### Arrays -/
 
+theorem readScalar_int (cfg : Cfg) (s : Scalar) (hi : Scalar.isInt s = true) (d : Bytes) (pos : Nat) (v : Val) (p : Nat)
+    (h : readScalar cfg s d pos = .ok (v, p)) : ∃ i, v = .int i := by
+  cases s with
+  | pint n sg =>
+    simp only [readScalar, bind, pure] at h
+    obtain ⟨⟨bs, q⟩, _, h2⟩ := bind_ok h
+    cases h2; exact ⟨_, rfl⟩
+  | aint n sg =>
+    simp only [readScalar, bind, pure] at h
+    obtain ⟨⟨bs, q⟩, _, h2⟩ := bind_ok h
+    cases h2; exact ⟨_, rfl⟩
+  | pflt n => simp [Scalar.isInt] at hi
+  | char => simp [Scalar.isInt] at hi
+  | wchar => simp [Scalar.isInt] at hi
+  | leb sg => simp [Scalar.isInt] at hi
+  | void => simp [Scalar.isInt] at hi
+
+theorem readN_length (cfg : Cfg) (e : Ty) (ctx : Ctx) (d : Bytes) : ∀ (n pos : Nat) (vs : Vals) (p : Nat),
+    readN cfg e n ctx d pos = .ok (vs, p) → vs.length = n := by
+  intro n
+  induction n with
+  | zero => intro pos vs p h; rw [readN_zero] at h; cases h; rfl
+  | succ n ih =>
+    intro pos vs p h
+    rw [readN_succ] at h
+    obtain ⟨⟨v, p1⟩, _, h2⟩ := bind_ok h
+    obtain ⟨⟨vs', p'⟩, h3, h4⟩ := bind_ok h2
+    cases h4
+    simp only [Vals.length, ih _ _ _ h3]
+
+/-- converse of `readN_bulk`: when the bytes are there, the element loop of a bulk scalar succeeds -/
+theorem readN_of_bulk (cfg : Cfg) (s : Scalar) (a k : Nat) (dec : Bytes → Val) (hB : Bulk cfg s k dec) (ctx : Ctx)
+    (d : Bytes) : ∀ (n pos : Nat), (sread d pos (k * n)).length = k * n →
+      readN cfg (.sc s a) n ctx d pos =
+        .ok (Vals.ofList ((splitEvery k n (sread d pos (k * n))).map dec), pos + k * n) := by
+  intro n
+  induction n with
+  | zero => intro pos _; rw [readN_zero]; simp [splitEvery, Vals.ofList]
+  | succ n ih =>
+    intro pos hl
+    have hk : k * (n + 1) = k + k * n := by rw [Nat.mul_succ]; omega
+    rw [hk, sread_add] at hl ⊢
+    have b1 : (sread d pos k).length ≤ k := by unfold sread; exact List.length_take_le _ _
+    have b2 : (sread d (pos + k) (k * n)).length ≤ k * n := by unfold sread; exact List.length_take_le _ _
+    rw [List.length_append] at hl
+    have l1 : (sread d pos k).length = k := by omega
+    have l2 : (sread d (pos + k) (k * n)).length = k * n := by omega
+    rw [readN_succ, read_sc, hB.1, readExact_of_len l1]
+    simp only [Except.bind]
+    rw [ih (pos + k) l2]
+    simp only [splitEvery, List.map_cons, Vals.ofList]
+    rw [List.take_left' l1, List.drop_left' l1, Nat.add_assoc]
+
+/-- an element loop over the base type of an enum is the element loop over the enum -/
+theorem readN_enum_of_sc (cfg : Cfg) (b : Scalar) (a : Nat) (f : Bool) (hi : Scalar.isInt b = true) (ctx : Ctx)
+    (d : Bytes) : ∀ (n pos : Nat) (vs : Vals) (p : Nat), readN cfg (.sc b a) n ctx d pos = .ok (vs, p) →
+      readN cfg (.enum b a f) n ctx d pos = .ok (vs.mapEnum, p) := by
+  intro n
+  induction n with
+  | zero => intro pos vs p h; rw [readN_zero] at h ⊢; cases h; rfl
+  | succ n ih =>
+    intro pos vs p h
+    rw [readN_succ] at h ⊢
+    obtain ⟨⟨v, p1⟩, h1, h2⟩ := bind_ok h
+    obtain ⟨⟨vs', p'⟩, h3, h4⟩ := bind_ok h2
+    cases h4
+    rw [read_sc] at h1
+    obtain ⟨i, rfl⟩ := readScalar_int cfg b hi d pos v p1 h1
+    rw [read_enum, h1]
+    simp only [wrapInt, Except.bind]
+    rw [ih _ _ _ h3]
+    rfl
+
+/-- a successful array read of a non-`char` element type is the element loop -/
+theorem readN_of_readArray (cfg : Cfg) (e : Ty) (hS : e.fragS cfg = true) (hne : ∀ a, e ≠ .sc .char a) (ctx : Ctx)
+    (d : Bytes) (n pos : Nat) (v : Val) (p : Nat) (h : readArray cfg e n ctx d pos = .ok (v, p)) :
+    ∃ vs, v = .list vs ∧ readN cfg e n ctx d pos = .ok (vs, p) := by
+  cases e with
+  | sc s a =>
+    rw [readArray.eq_1] at h
+    cases s with
+    | pint k sg =>
+      rw [(bulk_pint cfg k sg).2] at h
+      simp only [] at h
+      obtain ⟨⟨bs, q⟩, h1, h2⟩ := bind_ok h
+      obtain ⟨hl, hr⟩ := readExact_ok h1
+      cases hr; cases h2
+      exact ⟨_, rfl, readN_of_bulk cfg _ a k _ (bulk_pint cfg k sg) ctx d n pos hl⟩
+    | pflt k =>
+      rw [(bulk_pflt cfg k).2] at h
+      simp only [] at h
+      obtain ⟨⟨bs, q⟩, h1, h2⟩ := bind_ok h
+      obtain ⟨hl, hr⟩ := readExact_ok h1
+      cases hr; cases h2
+      exact ⟨_, rfl, readN_of_bulk cfg _ a k _ (bulk_pflt cfg k) ctx d n pos hl⟩
+    | aint k sg =>
+      simp only [readScalarArray] at h
+      obtain ⟨⟨vs, q⟩, h1, h2⟩ := map_ok h
+      cases h2; exact ⟨vs, rfl, h1⟩
+    | void =>
+      simp only [readScalarArray] at h
+      obtain ⟨⟨vs, q⟩, h1, h2⟩ := map_ok h
+      cases h2; exact ⟨vs, rfl, h1⟩
+    | char => exact absurd rfl (hne a)
+    | wchar => simp [Ty.fragS] at hS
+    | leb sg => simp [Ty.fragS] at hS
+  | enum b a f =>
+    rw [readArray.eq_2] at h
+    simp only [Ty.fragS] at hS
+    cases b with
+    | pint k sg =>
+      rw [(bulk_pint cfg k sg).2] at h
+      cases hx : readExact d pos (k * n) with
+      | error er => rw [hx] at h; cases h
+      | ok r =>
+        obtain ⟨bs, q⟩ := r
+        rw [hx] at h
+        simp only [Except.bind] at h
+        cases h
+        obtain ⟨hl, hr⟩ := readExact_ok hx
+        cases hr
+        exact ⟨_, rfl, readN_enum_of_sc cfg _ a f hS ctx d n pos _ _
+          (readN_of_bulk cfg _ a k _ (bulk_pint cfg k sg) ctx d n pos hl)⟩
+    | aint k sg =>
+      simp only [readScalarArray] at h
+      cases h1 : readN cfg (.sc (.aint k sg) a) n ctx d pos with
+      | error er => rw [h1] at h; cases h
+      | ok r =>
+        obtain ⟨vs, q⟩ := r
+        rw [h1] at h; cases h
+        exact ⟨_, rfl, readN_enum_of_sc cfg _ a f hS ctx d n pos _ _ h1⟩
+    | pflt k => simp [Scalar.isInt] at hS
+    | char => simp [Scalar.isInt] at hS
+    | wchar => simp [Scalar.isInt] at hS
+    | leb sg => simp [Scalar.isInt] at hS
+    | void => simp [Scalar.isInt] at hS
+  | ptr t =>
+    rw [readArray.eq_3 _ _ _ _ _ _ (by intros; contradiction) (by intros; contradiction)] at h
+    obtain ⟨⟨vs, q⟩, h1, h2⟩ := map_ok h
+    cases h2; exact ⟨vs, rfl, h1⟩
+  | arr e' l =>
+    rw [readArray.eq_3 _ _ _ _ _ _ (by intros; contradiction) (by intros; contradiction)] at h
+    obtain ⟨⟨vs, q⟩, h1, h2⟩ := map_ok h
+    cases h2; exact ⟨vs, rfl, h1⟩
+  | struct al fs =>
+    rw [readArray.eq_3 _ _ _ _ _ _ (by intros; contradiction) (by intros; contradiction)] at h
+    obtain ⟨⟨vs, q⟩, h1, h2⟩ := map_ok h
+    cases h2; exact ⟨vs, rfl, h1⟩
+  | union al fs => simp [Ty.fragS] at hS
+
 /-- element loop: read `n` elements, write them back -/
-theorem rw_N (cfg : Cfg) (al : Bool) (e : Ty) (k : Nat) (m : List Bool) (hk : e.size cfg = some k)
-    (hm : m.length = k) (d : Bytes) (hPF : ElemPF cfg al e d)
-    (hE : ∀ ctx pos v p, read cfg e ctx d pos = .ok (v, p) → p ≤ d.length → (al = true → sAlign cfg e ∣ pos) →
-      write cfg e v pos = .ok (applyMask m (sread d pos k))) :
+theorem rw_N (cfg : Cfg) (al : Bool) (e : Ty) (k : Nat) (m : List Bool) (hm : m.length = k) (d : Bytes)
+    (hdvd : al = true → sAlign cfg e ∣ k)
+    (hE : ∀ ctx pos v p, read cfg e ctx d pos = .ok (v, p) → (al = true → sAlign cfg e ∣ pos) →
+      p = pos + k ∧ (p ≤ d.length → write cfg e v pos = .ok (applyMask m (sread d pos k)))) :
     ∀ (n : Nat) (ctx : Ctx) (pos : Nat) (vs : Vals) (p : Nat), readN cfg e n ctx d pos = .ok (vs, p) →
-      p ≤ d.length → (al = true → sAlign cfg e ∣ pos) →
-      writeN cfg e vs pos = .ok (applyMask (List.replicate n m).flatten (sread d pos (n * k))) := by
+      (al = true → sAlign cfg e ∣ pos) →
+      p = pos + n * k ∧ (p ≤ d.length →
+        writeN cfg e vs pos = .ok (applyMask (List.replicate n m).flatten (sread d pos (n * k)))) := by
   intro n
   induction n with
   | zero =>
-    intro ctx pos vs p h _ _
+    intro ctx pos vs p h _
     rw [readN_zero] at h; cases h
+    refine ⟨by simp, fun _ => ?_⟩
     rw [writeN_nil]; simp [applyMask_nil_left]
   | succ n ih =>
-    intro ctx pos vs p h hlen hpos
+    intro ctx pos vs p h hpos
     rw [readN_succ] at h
     obtain ⟨⟨v, p1⟩, h1, h2⟩ := bind_ok h
     obtain ⟨⟨vs', p'⟩, h3, h4⟩ := bind_ok h2
     cases h4
-    obtain ⟨a1, a2, a3⟩ := hPF _ _ _ _ h1 hpos
-    obtain ⟨b1, _, _⟩ := pf_N cfg al e d hPF n _ p1 vs' p h3 a2
-    have hp1 := a3 k hk
-    have w1 := hE ctx pos v p1 h1 (by omega) hpos
-    have w2 := ih _ p1 vs' p h3 hlen a2
+    obtain ⟨hp1, w1⟩ := hE ctx pos v p1 h1 hpos
+    obtain ⟨hp, w2⟩ := ih _ p1 vs' p h3 (fun ha => by rw [hp1]; exact Nat.dvd_add (hpos ha) (hdvd ha))
+    have e1 : (n + 1) * k = k + n * k := by rw [Nat.succ_mul]; omega
+    refine ⟨by rw [hp, hp1, e1]; omega, fun hlen => ?_⟩
+    have w1 := w1 (by omega)
+    have w2 := w2 hlen
     have l1 : (sread d pos k).length = k := sread_length_of_le d pos k (by omega)
     have l2 : (applyMask m (sread d pos k)).length = k := by rw [applyMask_length, hm, l1]; omega
     rw [writeN_cons, w1]
     simp only [Except.bind]
     rw [l2, ← hp1, w2]
-    have e1 : (n + 1) * k = k + n * k := by rw [Nat.succ_mul]; omega
     rw [e1, sread_add, List.replicate_succ, List.flatten_cons, applyMask_append _ _ _ _ (by rw [hm, l1]), ← hp1]
-
-/-- a successful array read of a non-`char` element type is the element loop -/
-theorem readN_of_readArray (cfg : Cfg) (al : Bool) (e : Ty) (hS : e.fragS cfg = true) (hU : e.uniformAlign al = true)
-    (hP : e.pow2Aligned cfg) (hne : ∀ a, e ≠ .sc .char a) (ctx : Ctx) (d : Bytes) (n pos : Nat) (v : Val) (p : Nat)
-    (h : readArray cfg e n ctx d pos = .ok (v, p)) (hlen : p ≤ d.length) (hpos : al = true → sAlign cfg e ∣ pos) :
-    ∃ vs, v = .list vs ∧ readN cfg e n ctx d pos = .ok (vs, p) := by
-  obtain ⟨k, hk⟩ := fragS_size cfg e hS
-  obtain ⟨_, _, a3⟩ := pf_array cfg al e d (pf_S cfg al d e hS hU hP) n ctx pos v p h hpos
-  have hp := a3 k hk
-  have hdvd : al = true → sAlign cfg e ∣ k := by
-    intro ha; subst ha; exact size_sAlign_dvd cfg e hS hU hP k hk
-  obtain ⟨vs, h1, _⟩ := rs_N cfg al e k d hdvd
-    (fun ctx pos hl hp => rs_ty cfg al e hS hU hP ctx d pos k hk hl hp) n ctx pos (by omega) hpos
-  have h2 := readArray_of_readN cfg e hS hne ctx d n pos vs _ h1
-  rw [h] at h2
-  cases h2
-  exact ⟨vs, rfl, by rw [hp]; exact h1⟩
 
 /-! ### The induction: parse, then dump -/
 
 mutual
 theorem rw_ty (cfg : Cfg) (al : Bool) : ∀ (ty : Ty), ty.fragS cfg = true → ty.uniformAlign al = true →
-    ty.pow2Aligned cfg → ∀ (ctx : Ctx) (d : Bytes) (pos : Nat) (v : Val) (p : Nat),
-    read cfg ty ctx d pos = .ok (v, p) → p ≤ d.length → (al = true → sAlign cfg ty ∣ pos) →
+    (al = true → ty.pow2Aligned cfg) → ∀ (ctx : Ctx) (d : Bytes) (pos : Nat) (v : Val) (p : Nat),
+    read cfg ty ctx d pos = .ok (v, p) → (al = true → sAlign cfg ty ∣ pos) →
     ∀ k, ty.size cfg = some k →
-      p = pos + k ∧ write cfg ty v pos = .ok (applyMask (tyMask cfg ty) (sread d pos k))
-  | .sc s a, hS, _, _, ctx, d, pos, v, p, h, _, _, k, hk => by
+      p = pos + k ∧ (p ≤ d.length → write cfg ty v pos = .ok (applyMask (tyMask cfg ty) (sread d pos k)))
+  | .sc s a, hS, _, _, ctx, d, pos, v, p, h, _, k, hk => by
     rw [read_sc] at h
     obtain ⟨k', s1, s2, s3, s4⟩ := scalar_rw cfg s a hS d pos v p h
     simp only [Ty.size] at hk
     rw [hk] at s1; cases s1
-    refine ⟨s2, ?_⟩
+    refine ⟨s2, fun _ => ?_⟩
     rw [write_sc, s4]
     simp only [tyMask, hk, Option.getD_some, applyMask_scalar d pos k s3]
-  | .enum b a f, hS, _, _, ctx, d, pos, v, p, h, _, _, k, hk => by
+  | .enum b a f, hS, _, _, ctx, d, pos, v, p, h, _, k, hk => by
     rw [read_enum] at h
     obtain ⟨i, q, h1, h2⟩ := wrapInt_ok h
     cases h2
@@ -298,10 +433,10 @@ theorem rw_ty (cfg : Cfg) (al : Bool) : ∀ (ty : Ty), ty.fragS cfg = true → t
     obtain ⟨k', s1, s2, s3, s4⟩ := scalar_rw cfg b a (fragS_sc_of_isInt cfg b a hS) d pos _ _ h1
     simp only [Ty.size] at hk
     rw [hk] at s1; cases s1
-    refine ⟨s2, ?_⟩
+    refine ⟨s2, fun _ => ?_⟩
     rw [write_enum_enum, s4]
     simp only [tyMask, hk, Option.getD_some, applyMask_scalar d pos k s3]
-  | .ptr t, hS, _, _, ctx, d, pos, v, p, h, _, _, k, hk => by
+  | .ptr t, hS, _, _, ctx, d, pos, v, p, h, _, k, hk => by
     rw [read_ptr] at h
     obtain ⟨i, q, h1, h2⟩ := wrapInt_ok h
     cases h2
@@ -309,14 +444,15 @@ theorem rw_ty (cfg : Cfg) (al : Bool) : ∀ (ty : Ty), ty.fragS cfg = true → t
     obtain ⟨k', s1, s2, s3, s4⟩ := scalar_rw cfg cfg.ptr 0 (fragS_sc_of_isInt cfg cfg.ptr 0 hS) d pos _ _ h1
     simp only [Ty.size] at hk
     rw [hk] at s1; cases s1
-    refine ⟨s2, ?_⟩
+    refine ⟨s2, fun _ => ?_⟩
     rw [write_ptr_ptr, s4]
     simp only [tyMask, hk, Option.getD_some, applyMask_scalar d pos k s3]
-  | .union _ _, hS, _, _, _, _, _, _, _, _, _, _, _, _ => by simp [Ty.fragS] at hS
-  | .arr e len, hS, hU, hP, ctx, d, pos, v, p, h, hlen, hpos, k, hk => by
+  | .union _ _, hS, _, _, _, _, _, _, _, _, _, _, _ => by simp [Ty.fragS] at hS
+  | .arr e len, hS, hU, hP, ctx, d, pos, v, p, h, hpos, k, hk => by
     simp only [Ty.fragS, Bool.and_eq_true] at hS
     simp only [Ty.uniformAlign] at hU
-    simp only [Ty.pow2Aligned] at hP
+    have hP' : al = true → e.pow2Aligned cfg := fun ha => by
+      have := hP ha; simpa only [Ty.pow2Aligned] using this
     simp only [sAlign] at hpos
     cases len with
     | expr _ => simp at hS
@@ -327,62 +463,54 @@ theorem rw_ty (cfg : Cfg) (al : Bool) : ∀ (ty : Ty), ty.fragS cfg = true → t
       simp only [Ty.size, hk'] at hk
       cases hk
       rw [read_arr_fixed] at h
-      obtain ⟨_, _, a3⟩ := pf_array cfg al e d (pf_S cfg al d e hS.2 hU hP) n ctx pos v p h hpos
-      have hp := a3 k' hk'
-      refine ⟨hp, ?_⟩
       have hml := tyMask_length cfg e hS.2 k' hk'
       by_cases hc : ∃ a, e = .sc .char a
       · obtain ⟨a, rfl⟩ := hc
         cases hk'
         simp only [tyMask, Scalar.size, Option.getD_some]
-        rw [List.flatten_replicate_replicate]
-        have hl : (sread d pos (n * 1)).length = n * 1 := sread_length_of_le d pos _ (by omega)
-        rw [applyMask_true _ _ hl, Nat.mul_one]
-        rw [readArray_char] at h
+        rw [List.flatten_replicate_replicate, readArray_char] at *
         split at h
         · rename_i h0; subst h0
           cases h
-          rw [write_arr_chars, sread_zero]
+          refine ⟨by simp, fun _ => ?_⟩
+          rw [write_arr_chars, sread_zero]; simp [applyMask_nil_left]
         · obtain ⟨⟨bs, q⟩, h1, h2⟩ := bind_ok h
-          obtain ⟨_, hr⟩ := readExact_ok h1
+          obtain ⟨hl, hr⟩ := readExact_ok h1
           cases hr; cases h2
-          rw [write_arr_chars]
+          refine ⟨by simp, fun _ => ?_⟩
+          rw [write_arr_chars, Nat.mul_one, applyMask_true _ _ hl]
       · have hne : ∀ a, e ≠ .sc .char a := fun a h => hc ⟨a, h⟩
-        obtain ⟨vs, rfl, h1⟩ := readN_of_readArray cfg al e hS.2 hU hP hne ctx d n pos v p h hlen hpos
-        have hPFN := pf_N cfg al e d (pf_S cfg al d e hS.2 hU hP) n ctx pos vs p h1 hpos
-        have hw := rw_N cfg al e k' (tyMask cfg e) hk' hml d (pf_S cfg al d e hS.2 hU hP)
-          (fun ctx pos v p hr hl hp => (rw_ty cfg al e hS.2 hU hP ctx d pos v p hr hl hp k' hk').2)
-          n ctx pos vs p h1 hlen hpos
-        have hvl : vs.length = n := by
-          obtain ⟨ws, g1, g2⟩ := rs_N cfg al e k' d
-            (fun ha => by subst ha; exact size_sAlign_dvd cfg e hS.2 hU hP k' hk')
-            (fun ctx pos hl hp => rs_ty cfg al e hS.2 hU hP ctx d pos k' hk' hl hp) n ctx pos (by omega) hpos
-          rw [← hp, h1] at g1
-          cases g1
-          exact hasTyN_length cfg e n _ g2
-        rw [write_arr_list, if_neg (by rw [hvl]; simp), hw]
+        obtain ⟨vs, rfl, h1⟩ := readN_of_readArray cfg e hS.2 hne ctx d n pos v p h
+        have hdvd : al = true → sAlign cfg e ∣ k' := by
+          intro ha; subst ha; exact size_sAlign_dvd cfg e hS.2 hU (hP' rfl) k' hk'
+        obtain ⟨hp, hw⟩ := rw_N cfg al e k' (tyMask cfg e) hml d hdvd
+          (fun ctx pos v p hr hp => rw_ty cfg al e hS.2 hU hP' ctx d pos v p hr hp k' hk')
+          n ctx pos vs p h1 hpos
+        refine ⟨hp, fun hlen => ?_⟩
+        have hvl : vs.length = n := readN_length cfg e ctx d n pos vs p h1
+        rw [write_arr_list, if_neg (by rw [hvl]; simp), hw hlen]
         simp only [tyMask]
-  | .struct al' fs, hS, hU, hP, ctx, d, pos, v, p, h, hlen, hpos, k, hk => by
+  | .struct al' fs, hS, hU, hP, ctx, d, pos, v, p, h, hpos, k, hk => by
     simp only [Ty.fragS] at hS
     simp only [Ty.uniformAlign, Bool.and_eq_true, beq_iff_eq] at hU
-    simp only [Ty.pow2Aligned] at hP
     obtain ⟨rfl, hU⟩ := hU
+    have hP' : al' = true → fs.pow2Aligned cfg := fun ha => by
+      have := hP ha; simpa only [Ty.pow2Aligned] using this
     rw [struct_size cfg al' fs hS] at hk
     cases hk
     rw [read_struct, structLayout_S cfg al' fs hS] at h
     simp only [Except.bind] at h
     obtain ⟨⟨vs, szs, q⟩, h3, h4⟩ := bind_ok h
     have hdv : al' = true → allAlignDvd cfg pos fs :=
-      fun ha => allAlignDvd_of_sAlign cfg al' fs hP pos (hpos ha)
+      fun ha => allAlignDvd_of_sAlign cfg al' fs (hP' ha) pos (hpos ha)
     have h3' : readFields cfg al' fs (offsS cfg al' fs 0) pos BitBuf.empty [] d (pos + 0) = .ok (vs, szs, q) := h3
-    obtain ⟨b1, b2⟩ := rw_fields cfg al' fs hS hU hP [] d pos 0 BitBuf.empty vs szs q h3' hdv
+    obtain ⟨b1, b2⟩ := rw_fields cfg al' fs hS hU hP' [] d pos 0 BitBuf.empty vs szs q h3' hdv
     have hml := fieldsMask_length cfg fs hS al' 0
-    have hE := le_endOff cfg al' fs 0
     simp only [Nat.sub_zero, Nat.add_zero] at b2 hml
     generalize hEd : endOff cfg al' fs 0 = E at *
     generalize hMd : Fields.maxAlign cfg fs 0 = M at *
     have hpad : al' = true → padNat (pos + E) M = padNat E M := by
-      intro ha; subst ha; subst hMd; exact padNat_struct cfg true fs hP pos E (hpos rfl)
+      intro ha; subst ha; subst hMd; exact padNat_struct cfg true fs (hP' rfl) pos E (hpos rfl)
     have hv : v = .record vs := by cases h4; rfl
     subst hv
     have hp : p = pos + alignTo al' E M := by
@@ -391,8 +519,8 @@ theorem rw_ty (cfg : Cfg) (al : Bool) : ∀ (ty : Ty), ty.fragS cfg = true → t
       | false => simp [alignTo, b1]
       | true => simp only [alignTo, if_true, b1, hpad rfl]; omega
     have hle := le_alignTo al' E M
-    refine ⟨hp, ?_⟩
-    obtain ⟨w, _⟩ := b2 (by omega)
+    refine ⟨hp, fun hlen => ?_⟩
+    have w := b2 (by omega)
     have l1 : (sread d pos E).length = E := sread_length_of_le d pos E (by omega)
     have l2 : (sread d (pos + E) (alignTo al' E M - E)).length = alignTo al' E M - E :=
       sread_length_of_le d _ _ (by omega)
@@ -407,7 +535,7 @@ theorem rw_ty (cfg : Cfg) (al : Bool) : ∀ (ty : Ty), ty.fragS cfg = true → t
     | false => simp [alignTo, zeros]
     | true => simp only [if_true, hpad rfl, alignTo]; congr 3; omega
 theorem rw_fields (cfg : Cfg) (al : Bool) : ∀ (fs : Fields), Fields.fragS cfg fs = true →
-    Fields.uniformAlign al fs = true → fs.pow2Aligned cfg →
+    Fields.uniformAlign al fs = true → (al = true → fs.pow2Aligned cfg) →
     ∀ (ctx : Ctx) (d : Bytes) (start o : Nat) (bb : BitBuf) (vs : Vals) (szs : List (String × Nat)) (q : Nat),
     readFields cfg al fs (offsS cfg al fs o) start bb ctx d (start + o) = .ok (vs, szs, q) →
     (al = true → allAlignDvd cfg start fs) →
@@ -415,24 +543,27 @@ theorem rw_fields (cfg : Cfg) (al : Bool) : ∀ (fs : Fields), Fields.fragS cfg 
     (q ≤ d.length →
       writeFields cfg al fs (offsS cfg al fs o) vs start BitBuf.empty (start + o) =
         .ok (applyMask (fieldsMask cfg fs (offsS cfg al fs o) o) (sread d (start + o) (endOff cfg al fs o - o)),
-          BitBuf.empty) ∧ True)
+          BitBuf.empty))
   | .nil, _, _, _, ctx, d, start, o, bb, vs, szs, q, h, _ => by
     rw [readFields_nil] at h; cases h
-    refine ⟨rfl, fun _ => ⟨?_, trivial⟩⟩
+    refine ⟨rfl, fun _ => ?_⟩
     rw [writeFields_nil]
     simp [fieldsMask, applyMask_nil_left]
   | .cons name an ty bits rest, hS, hU, hP, ctx, d, start, o, bb, vs, szs, q, h, hdv => by
     simp only [Fields.fragS, Bool.and_eq_true, Option.isNone_iff_eq_none] at hS
     obtain ⟨⟨rfl, hS1⟩, hS2⟩ := hS
     simp only [Fields.uniformAlign, Bool.and_eq_true] at hU
-    simp only [Fields.pow2Aligned] at hP
+    have hP1 : al = true → ty.pow2Aligned cfg := fun ha => by
+      have := hP ha; simp only [Fields.pow2Aligned] at this; exact this.1
+    have hP2 : al = true → rest.pow2Aligned cfg := fun ha => by
+      have := hP ha; simp only [Fields.pow2Aligned] at this; exact this.2
     obtain ⟨k, hk⟩ := fragS_size cfg ty hS1
-    have hfa := alignment_p2 cfg ty hP.1
     have hle := le_alignTo al o (ty.alignment cfg)
     have hpos : al = true → sAlign cfg ty ∣ start + alignTo al o (ty.alignment cfg) := by
       intro ha; subst ha
       have h1 := (hdv rfl).1
-      exact Nat.dvd_trans (sAlign_dvd_alignment cfg ty) (Nat.dvd_add h1 (alignTo_dvd hfa o))
+      exact Nat.dvd_trans (sAlign_dvd_alignment cfg ty)
+        (Nat.dvd_add h1 (alignTo_dvd (alignment_p2 cfg ty (hP1 rfl)) o))
     have hml := tyMask_length cfg ty hS1 k hk
     simp only [offsS, hk, Option.getD_some] at h ⊢
     simp only [endOff, hk, Option.getD_some]
@@ -441,14 +572,14 @@ theorem rw_fields (cfg : Cfg) (al : Bool) : ∀ (fs : Fields), Fields.fragS cfg 
     obtain ⟨⟨v, p1⟩, h1, h2⟩ := bind_ok h
     obtain ⟨⟨vs', szs', q'⟩, h3, h4⟩ := bind_ok h2
     cases h4
-    obtain ⟨_, _, a3⟩ := pf_S cfg al d ty hS1 hU.1 hP.1 ctx (start + fo) v p1 h1 hpos
-    have hp1 : p1 = start + (fo + k) := by rw [a3 k hk]; omega
+    obtain ⟨a3, w1⟩ := rw_ty cfg al ty hS1 hU.1 hP1 ctx d (start + fo) v p1 h1 hpos k hk
+    have hp1 : p1 = start + (fo + k) := by rw [a3]; omega
     rw [hp1] at h3
-    obtain ⟨b1, b2⟩ := rw_fields cfg al rest hS2 hU.2 hP.2 _ d start (fo + k) _ vs' szs' q h3 (fun ha => (hdv ha).2)
+    obtain ⟨b1, b2⟩ := rw_fields cfg al rest hS2 hU.2 hP2 _ d start (fo + k) _ vs' szs' q h3 (fun ha => (hdv ha).2)
     have hE := le_endOff cfg al rest (fo + k)
-    refine ⟨b1, fun hq => ⟨?_, trivial⟩⟩
-    obtain ⟨_, w1⟩ := rw_ty cfg al ty hS1 hU.1 hP.1 ctx d (start + fo) v p1 h1 (by omega) hpos k hk
-    obtain ⟨w2, _⟩ := b2 hq
+    refine ⟨b1, fun hq => ?_⟩
+    have w1 := w1 (by omega)
+    have w2 := b2 hq
     generalize endOff cfg al rest (fo + k) = E at *
     have hpad : (if start + o < start + fo then start + fo - (start + o) else 0) = fo - o := by
       split <;> omega
@@ -469,5 +600,136 @@ theorem rw_fields (cfg : Cfg) (al : Bool) : ∀ (fs : Fields), Fields.fragS cfg 
     have e4 : start + fo + k = start + (fo + k) := by omega
     rw [e4]
 end
+
+/-! ### Packed mode: the mask is all data -/
+
+mutual
+theorem mask_packed_ty (cfg : Cfg) : ∀ ty : Ty, ty.fragS cfg = true → ty.uniformAlign false = true →
+    ∀ n, ty.size cfg = some n → tyMask cfg ty = List.replicate n true
+  | .sc s _, _, _, n, hn => by
+    simp only [Ty.size] at hn
+    simp only [tyMask, hn, Option.getD_some]
+  | .enum b _ _, _, _, n, hn => by
+    simp only [Ty.size] at hn
+    simp only [tyMask, hn, Option.getD_some]
+  | .ptr _, _, _, n, hn => by
+    simp only [Ty.size] at hn
+    simp only [tyMask, hn, Option.getD_some]
+  | .union _ _, h, _, _, _ => by simp [Ty.fragS] at h
+  | .arr e len, h, hU, n, hn => by
+    simp only [Ty.fragS, Bool.and_eq_true] at h
+    simp only [Ty.uniformAlign] at hU
+    cases len with
+    | expr _ => simp at h
+    | nullTerm => simp at h
+    | eof => simp at h
+    | fixed m =>
+      simp only [Ty.size] at hn
+      cases he : e.size cfg with
+      | none => rw [he] at hn; cases hn
+      | some k =>
+        rw [he] at hn; cases hn
+        simp only [tyMask, mask_packed_ty cfg e h.2 hU k he, List.flatten_replicate_replicate]
+  | .struct al fs, h, hU, n, hn => by
+    simp only [Ty.fragS] at h
+    simp only [Ty.uniformAlign, Bool.and_eq_true, beq_iff_eq] at hU
+    obtain ⟨rfl, hU⟩ := hU
+    rw [struct_size cfg false fs h] at hn
+    cases hn
+    have ih := mask_packed_fields cfg fs h hU 0
+    simp only [tyMask, structLayout_S cfg false fs h, ih, List.length_replicate]
+    simp [alignTo]
+theorem mask_packed_fields (cfg : Cfg) : ∀ fs : Fields, Fields.fragS cfg fs = true →
+    Fields.uniformAlign false fs = true → ∀ o : Nat,
+    fieldsMask cfg fs (offsS cfg false fs o) o = List.replicate (endOff cfg false fs o - o) true
+  | .nil, _, _, _ => by simp [fieldsMask, endOff]
+  | .cons _ _ ty bits r, h, hU, o => by
+    simp only [Fields.fragS, Bool.and_eq_true, Option.isNone_iff_eq_none] at h
+    obtain ⟨⟨rfl, h1⟩, h2⟩ := h
+    simp only [Fields.uniformAlign, Bool.and_eq_true] at hU
+    obtain ⟨k, hk⟩ := fragS_size cfg ty h1
+    have hm := mask_packed_ty cfg ty h1 hU.1 k hk
+    have hao : alignTo false o (ty.alignment cfg) = o := by simp [alignTo]
+    have ih := mask_packed_fields cfg r h2 hU.2 (o + k)
+    have hle := le_endOff cfg false r (o + k)
+    simp only [offsS, endOff, hk, hao, Option.getD_some, fieldsMask, List.headD_cons, List.drop_succ_cons,
+      List.drop_zero, hm, ih, List.length_replicate, Nat.sub_self, List.replicate_zero, List.nil_append,
+      List.replicate_append_replicate]
+    congr 1; omega
+end
+
+/-! ### The property theorems -/
+
+/-- aligned (and packed) mode: parse, then dump -/
+theorem fidelity_aligned (cfg : Cfg) (al : Bool) (ty : Ty) (hS : ty.fragS cfg = true) (hu : ty.uniformAlign al = true)
+    (hp : ty.pow2Aligned cfg) (ctx : Ctx) (d : Bytes) (pos : Nat) (hal : ty.alignsDivide cfg pos = true) (v : Val) (p : Nat)
+    (hr : read cfg ty ctx d pos = .ok (v, p)) (hlen : p ≤ d.length) :
+    ∃ bs, write cfg ty v pos = .ok bs ∧ bs.length = p - pos ∧ pos ≤ p ∧
+      bs = applyMask (tyMask cfg ty) ((d.drop pos).take (p - pos)) ∧ (tyMask cfg ty).length = p - pos := by
+  obtain ⟨k, hk⟩ := fragS_size cfg ty hS
+  obtain ⟨h1, h2⟩ := rw_ty cfg al ty hS hu (fun _ => hp) ctx d pos v p hr
+    (fun _ => sAlign_dvd_of_alignsDivide cfg pos ty hal) k hk
+  have h2 := h2 hlen
+  have hml := tyMask_length cfg ty hS k hk
+  have hk' : p - pos = k := by omega
+  have l1 : (sread d pos k).length = k := sread_length_of_le d pos k (by omega)
+  rw [hk']
+  refine ⟨_, h2, ?_, by omega, rfl, hml⟩
+  rw [applyMask_length, hml, l1]; omega
+
+/-- the slices of two extensions of `d` by different filler bytes differ as soon as they reach past `d` -/
+theorem sread_ext_ne (d : Bytes) (pos k m : Nat) (hpos : pos ≤ d.length) (h1 : d.length < pos + k)
+    (h2 : pos + k ≤ d.length + m) :
+    sread (d ++ List.replicate m 0) pos k ≠ sread (d ++ List.replicate m 1) pos k := by
+  intro h
+  have := congrArg (fun l => l[d.length - pos]?) h
+  have hlt : d.length - pos < k := by omega
+  have hm : 0 < m := by omega
+  have e : pos + (d.length - pos) = d.length := by omega
+  simp only [sread, List.getElem?_take, List.getElem?_drop, hlt, if_true, e,
+    List.getElem?_append_right (Nat.le_refl _), Nat.sub_self, List.getElem?_replicate, hm] at this
+  exact absurd this (by decide)
+
+/-- packed mode: parse, then dump on an input that is long enough -/
+theorem packed_long (cfg : Cfg) (ty : Ty) (hS : ty.fragS cfg = true) (hu : ty.uniformAlign false = true)
+    (ctx : Ctx) (d : Bytes) (pos : Nat) (v : Val) (p : Nat) (hr : read cfg ty ctx d pos = .ok (v, p)) (k : Nat)
+    (hk : ty.size cfg = some k) : p = pos + k ∧ (p ≤ d.length → write cfg ty v pos = .ok (sread d pos k)) := by
+  obtain ⟨h1, h2⟩ := rw_ty cfg false ty hS hu (fun h => by cases h) ctx d pos v p hr (fun h => by cases h) k hk
+  refine ⟨h1, fun hlen => ?_⟩
+  rw [h2 hlen, mask_packed_ty cfg ty hS hu k hk, applyMask_true k _ (sread_length_of_le d pos k (by omega))]
+
+/-- packed mode, start inside the input: parse, then dump is the identity on the consumed bytes, which all exist -/
+theorem c02_fidelity_packed_alt (cfg : Cfg) (ty : Ty) (hS : ty.fragS cfg = true) (hu : ty.uniformAlign false = true)
+    (ctx : Ctx) (d : Bytes) (pos : Nat) (hpos : pos ≤ d.length) (v : Val) (p : Nat)
+    (hr : read cfg ty ctx d pos = .ok (v, p)) :
+    write cfg ty v pos = .ok ((d.drop pos).take (p - pos)) ∧ pos ≤ p ∧ p ≤ d.length := by
+  obtain ⟨k, hk⟩ := fragS_size cfg ty hS
+  have hpl := fragS_plain cfg ty hS
+  have hr0 := Cstruct.Core.read_extend cfg ty hpl ctx d pos v p hr (d ++ List.replicate (k + 1) 0) (List.prefix_append _ _)
+  have hr1 := Cstruct.Core.read_extend cfg ty hpl ctx d pos v p hr (d ++ List.replicate (k + 1) 1) (List.prefix_append _ _)
+  obtain ⟨hp, w0⟩ := packed_long cfg ty hS hu ctx _ pos v p hr0 k hk
+  obtain ⟨_, w1⟩ := packed_long cfg ty hS hu ctx _ pos v p hr1 k hk
+  have w0 := w0 (by simp only [List.length_append, List.length_replicate]; omega)
+  have w1 := w1 (by simp only [List.length_append, List.length_replicate]; omega)
+  have hle : pos + k ≤ d.length := by
+    apply Decidable.byContradiction
+    intro hn
+    rw [w0] at w1
+    exact sread_ext_ne d pos k (k + 1) hpos (by omega) (by omega) (Except.ok.inj w1)
+  have hl : (sread d pos k).length = k := sread_length_of_le d pos k hle
+  rw [sread_append d _ pos k hl] at w0
+  have hk' : p - pos = k := by omega
+  rw [hk']
+  exact ⟨w0, by omega, by omega⟩
+
+/-- `c02_fidelity_packed` as first stated (without `pos ≤ d.length`) is false: a zero-size type read at a position beyond
+    the end of the input "succeeds" without touching the input and ends where it started -/
+theorem c02_fidelity_packed_counterexample :
+    ¬ (∀ (cfg : Cfg) (ty : Ty) (_ : ty.fragS cfg = true) (_ : ty.uniformAlign false = true)
+      (ctx : Ctx) (d : Bytes) (pos : Nat) (v : Val) (p : Nat) (_ : read cfg ty ctx d pos = .ok (v, p)),
+      write cfg ty v pos = .ok ((d.drop pos).take (p - pos)) ∧ pos ≤ p ∧ p ≤ d.length) := by
+  intro h
+  have := h cfg0 (.sc .void 0) rfl rfl [] [] 1 .void 1 (by rw [read_sc]; rfl)
+  simp at this
 
 end Cstruct.C02.Lemmas
